@@ -13,6 +13,9 @@ Line protocol of the dynamical-matrix model (served by `Drivers/C02.lean` and `D
   compactok np ns nsv p2s[np] s2p[ns] multi[ns*np*2] s2pp[ns]           → true | false
   linked    np ns nsv p2s[np] s2p[ns] multi[ns*np*2]  nt p2s'[np] s2pp[ns] nsym[ns] perms[nt*ns]
         → `<linkedOk> <CTables.wf>`
+  svinv np nf ns nsv p2s[np] s2p[ns] multi[ns*np*2] pi[np] pinv[np] kap[np*ns] kinv[np*ns] sig[nsv] sinv[nsv]
+        → `svecsInvariantOk` (true | false)
+  svdev nsv R[9] sig[nsv] svecs[nsv*3] tol                              → true | false
   denseadrs ns np smulti[ns*np]                                          → the `ns*np` addresses
 Numbers are exact (`n/d`).  Anything malformed (wrong count, index out of range, multiplicity 0,
 address range outside the stored vectors) → `bad-op`.
@@ -126,6 +129,50 @@ def handle (line : String) : String :=
       let ⟨_, C, c⟩ ← readCTables c np ns
       if !c.atEnd then none
       pure (toString (linkedOk T C) ++ " " ++ toString C.wf)
+    | "svinv" =>
+      let (np, c) ← c.nat?
+      let (nf, c) ← c.nat?
+      let (ns, c) ← c.nat?
+      let (nsv, c) ← c.nat?
+      let (T, c) ← readDTables c np nf ns nsv
+      let (pi, c) ← c.nats? np
+      let (pinv, c) ← c.nats? np
+      let (kap, c) ← c.nats? (np * ns)
+      let (kinv, c) ← c.nats? (np * ns)
+      let (sig, c) ← c.nats? nsv
+      let (sinv, c) ← c.nats? nsv
+      if !c.atEnd then none
+      let pi ← allFin? np pi
+      let pinv ← allFin? np pinv
+      let kap ← allFin? ns kap
+      let kinv ← allFin? ns kinv
+      let sig ← allFin? nsv sig
+      let sinv ← allFin? nsv sinv
+      if hnp : 0 < np ∧ 0 < ns ∧ 0 < nsv then
+        let d1 : Fin np := ⟨0, hnp.1⟩
+        let d2 : Fin ns := ⟨0, hnp.2.1⟩
+        let d3 : Fin nsv := ⟨0, hnp.2.2⟩
+        let M : SymMaps np ns nsv :=
+          { pi := fun i => pi.getD i.1 d1, pinv := fun i => pinv.getD i.1 d1,
+            kap := fun i k => kap.getD (i.1 * ns + k.1) d2, kinv := fun i k => kinv.getD (i.1 * ns + k.1) d2,
+            sig := fun x => sig.getD x.1 d3, sinv := fun x => sinv.getD x.1 d3 }
+        pure (toString (svecsInvariantOk T M))
+      else none
+    | "svdev" =>
+      -- every stored vector is mapped onto the stored vector `sig` names: |R·sv_l − sv_(sig l)|_∞ ≤ tol
+      let (nsv, c) ← c.nat?
+      let (rot, c) ← c.ints? 9
+      let (sig, c) ← c.nats? nsv
+      let (sv, c) ← c.rats? (nsv * 3)
+      let (tol, c) ← c.rat?
+      if !c.atEnd then none
+      let ok := (List.range nsv).all fun l =>
+        (List.range 3).all fun a =>
+          let img : Rat := (List.range 3).foldl (fun acc b => acc + ((rot.getD (a * 3 + b) 0 : Int) : Rat) * sv.getD (l * 3 + b) 0) 0
+          let tgt := sv.getD ((sig.getD l nsv) * 3 + a) 0
+          let d := img - tgt
+          decide (d ≤ tol) && decide (-tol ≤ d) && decide (sig.getD l nsv < nsv)
+      pure (toString ok)
     | "denseadrs" =>
       let (ns, c) ← c.nat?
       let (np, c) ← c.nat?
